@@ -1,6 +1,7 @@
 use std::iter::once;
 
 use crate::bound::{Bounds, WhereClauseBuilder};
+use crate::syn_utils::expand_self;
 use proc_macro2::{Span, TokenStream, TokenTree};
 use quote::{quote, quote_spanned, ToTokens};
 use structmeta::{Flag, ToTokens};
@@ -139,18 +140,32 @@ fn build_compare_op(
         CompareOp::PartialEq | CompareOp::PartialOrd | CompareOp::Ord | CompareOp::Hash => {
             (body, quote!())
         }
-        CompareOp::Eq => (
-            quote!(),
-            quote! {
-                const _: () = {
-                    #[allow(clippy::double_parens)]
-                    #[allow(unused_parens)]
-                    fn __f #impl_g (__this: &#this_ty) #wheres {
-                        #body
-                    }
+        CompareOp::Eq => {
+            // `Self` cannot be used in a free function: spell out the type in bounds and where-clause.
+            let generics_f = expand_self(source.generics(), &this_ty);
+            let (impl_g_f, _, _) = generics_f.split_for_impl();
+            let wheres_f = if wheres.is_empty() {
+                quote!()
+            } else {
+                let g = Generics {
+                    where_clause: Some(parse2(wheres.clone())?),
+                    ..Generics::default()
                 };
-            },
-        ),
+                expand_self(&g, &this_ty).where_clause.to_token_stream()
+            };
+            (
+                quote!(),
+                quote! {
+                    const _: () = {
+                        #[allow(clippy::double_parens)]
+                        #[allow(unused_parens)]
+                        fn __f #impl_g_f (__this: &#this_ty) #wheres_f {
+                            #body
+                        }
+                    };
+                },
+            )
+        }
     };
 
     Ok(quote! {
